@@ -2206,6 +2206,12 @@ func (e *CoreExtension) filterRound(value interface{}, args ...interface{}) (int
 		}
 	}
 
+	// A float64 of this size has no fractional part left to round, and shifting it
+	// by the precision would only lose digits (1e21|round(2) gave 999999999999999900000)
+	if math.Abs(num) >= 1<<53 {
+		return num, nil
+	}
+
 	// Apply rounding
 	var result float64
 	switch method {
